@@ -245,6 +245,9 @@ fn lengths(rng: &mut Rng, tier: Tier) -> usize {
         7 => 131073,
         8 => *rng.pick(&[196608usize, 262144, 1 << 20]).min(&tier.pick(1usize << 20, 1 << 20)),
         9 => rng.range(65530, 65545) as usize,
+        // multi-byte integer boundaries of the XZ index (uncompressed size n and
+        // unpadded size n + 16 crossing 128 and 16384)
+        10 => *rng.pick(&[110usize, 111, 112, 113, 126, 127, 128, 129, 16365, 16366, 16367, 16368, 16369, 16383, 16384, 16385]),
         _ => rng.range(3, 5000) as usize,
     }
 }
